@@ -13,6 +13,7 @@ import numpy as np
 
 from harness.gen import datasets as G
 from harness.gen import timeunits as TU
+from harness.gen import c17_extra6 as X6      # round 6: ranks (scalars left by a selection), histories of saves
 from harness import util
 
 warnings.simplefilter('ignore')
@@ -27,7 +28,17 @@ REQUIRED = [
     'Ems.C17.fill_decision', 'Ems.C17.no_new_fill', 'Ems.C17.autofill_covered',
     'Ems.C17.time_coordinate_first', 'Ems.C17.time_coordinate_none',
     'Ems.C17.same_instant_gregorian', 'Ems.C17.validInput_gregorian',
+    # the theorems about the terms translated from the source (harness/trans_timeunits.py -> Gen/TimeUnitsSrc.lean)
+    'Ems.C17.src_translated', 'Ems.C17.src_template_spec', 'Ems.C17.src_offset_roundtrip', 'Ems.C17.src_format_spec',
+    'Ems.C17.src_format_primary', 'Ems.C17.src_output_form', 'Ems.C17.src_same_instant', 'Ems.C17.src_same_zone',
+    'Ems.C17.src_fill_spec', 'Ems.C17.src_fill_decision', 'Ems.C17.src_time_coordinate_generic',
+    'Ems.C17.src_time_coordinate_shoc', 'Ems.C17.src_time_coordinate_owners', 'Ems.C17.src_time_coordinate_first',
+    'Ems.C17.src_time_coordinate_none', 'Ems.C17.src_fix_spec',
+    # round 6: variables of every rank, histories of saves (Core/SaveSession.lean, Props/C17Hist.lean)
+    'Ems.C17.save_history_independent', 'Ems.C17.plain_save_no_new_fill', 'Ems.C17.plain_save_after_history',
+    'Ems.C17.save_rank_irrelevant', 'Ems.C17.scalar_no_new_fill',
 ]
+EXTRA_MODULES = ['EmsModel.Props.C17Src', 'EmsModel.Props.C17Hist']
 RULE = ('units strings built from (period, date, time of day, offset, calendar, spelling) tuples: every cftime '
         'unit name x epochs incl. years < 1000, leap days, month/year ends where local and UTC date differ, the '
         '1582 switch and the ends of the year range x every offset -12:00..+14:00 in 15-minute steps (all of them, '
@@ -41,7 +52,17 @@ RULE = ('units strings built from (period, date, time of day, offset, calendar, 
         'other tools write it (lower case, UPPER, Capitalised, Title_Case, mixed; gregorian for standard) in the '
         'fix_time_units_for_ems files, the time-coordinate saves and the round trips, and the units attribute found '
         'in the file afterwards is held against the form / same-instant / same-zone clauses directly. Non-trivial: offset != 0, or local date != UTC date, or year < '
-        '1000, or a non-canonical spelling; distinct = distinct (units string, calendar).')
+        '1000, or a non-canonical spelling; distinct = distinct (units string, calendar). '
+        'Round 6 (harness/gen/c17_extra6.py, a random stream of its own): round trips of what is left of a dataset after '
+        'one index was selected along a non-empty subset of its non-grid dimensions (time, k, spare; in memory or on the '
+        'opened file) - the f8 / f4 / i4 level variable of a selected dimension (index coordinate, other coordinate or '
+        'data variable, with or without a _FillValue of its own) stays without dimensions - plus variables that never had '
+        'a dimension (float, int, datetime64, timedelta64); the fill decision of every writable dtype at rank 0 and 2 '
+        'through to_netcdf_with_fixes; and the same plain round trips judged after a history of 1-3 earlier saves (of '
+        'another dataset of the same or another convention through the convention object, the accessor or '
+        'to_netcdf_with_fixes, or of the judged dataset itself) that were given keyword arguments of their own '
+        '(encoding= packing / fill value / compression, format=, unlimited_dims=, engine=, an encoding that makes the '
+        'call fail). The _FillValue attributes of every file of a history are compared with Ems.SaveSession.runSession.')
 TRUSTED = [
     'cftime units grammar (_datesplit, ISO8601_REGEX / TIMEZONE_REGEX, _parse_date, num2pydate): modelled as it behaves (Ems.TimeUnits.parseDate / parseOffset / refInstant), compared with the real cftime on every generated string',
     'datetime / pytz calendar arithmetic: abstract bijection between field tuples and seconds (CalLaws); the concrete proleptic Gregorian instance used by the driver is proved lawful in Lemmas/TimeUnitsCal.lean and compared with datetime on every case',
@@ -1008,6 +1029,16 @@ def run_roundtrip(ctx, rt: dict, tmp: str) -> list:
         ds = ds.assign_coords({tname: da})
     else:
         ds[tname] = da
+    # >>> round 6 (ranks): the level variables / scalars of the recipe; the selection when it is made in memory
+    sel, full_sizes, hist_seen = rt.get('selection'), {}, []
+    if sel:
+        ds = X6.apply_levels(ds, sel, recipe.get('sizes_extra', {}))
+        full_sizes = {str(k): int(v) for k, v in ds.sizes.items()}
+        if sel['when'] == 'before':
+            ds = X6.apply_select(ds, sel)
+        if 'time' in sel['select']:
+            instants = [instants[int(sel['select']['time'])]]
+    # <<< round 6
     src_fill = {}
     if rt['mode'] == 'file':
         # the source is a file: written by plain xarray with explicit "no fill" encodings where the
@@ -1025,6 +1056,8 @@ def run_roundtrip(ctx, rt: dict, tmp: str) -> list:
         with netCDF4.Dataset(src_path) as nc:
             src_fill = {k: ('_FillValue' in v.ncattrs()) for k, v in nc.variables.items()}
         source = emsarray.open_dataset(src_path)
+        if sel and sel['when'] == 'after':      # round 6 (ranks): the selection is made on the opened file
+            source = X6.apply_select(source, sel)
         try:
             c = source.ems
         except Exception as e:   # noqa
@@ -1062,6 +1095,8 @@ def run_roundtrip(ctx, rt: dict, tmp: str) -> list:
     out_path = os.path.join(tmp, 'out.nc')
     ctx.count(f'roundtrip:{conv}:{rt["mode"]}')
     ctx.evaluated()
+    if rt.get('history'):       # round 6 (histories): earlier saves of this process, with their own keyword arguments
+        hist_seen = X6.play_history(rt['history'], tmp, same=c)
     try:
         c.to_netcdf(out_path)
         saved = True
@@ -1119,20 +1154,20 @@ def run_roundtrip(ctx, rt: dict, tmp: str) -> list:
     # (whether the polygons are the *right* ones for the coordinates is property C06; here the source's
     # polygons, computed before saving, are the reference)
     for name, info in built.vars.items():
-        want = expected_values(info)
+        want_dims, want = X6.select_truth(info.dims, expected_values(info), sel)      # round 6: after the selection, if any
         if name not in ds2.variables:
             ctx.oracle_fail('variable-lost', desc, f'{name} missing after the round trip')
             continue
         v2 = ds2[name]
-        if tuple(v2.dims) != tuple(info.dims):
-            ctx.oracle_fail('values-changed', desc, f'{name}: dims {info.dims} -> {v2.dims}')
+        if tuple(v2.dims) != tuple(want_dims):
+            ctx.oracle_fail('values-changed', desc, f'{name}: dims {want_dims} -> {v2.dims}')
             continue
         vals = np.asarray(v2.values, dtype='f8')
         same = (vals.shape == want.shape) and bool(np.all((vals == want) | (np.isnan(vals) & np.isnan(want))))
         if not same:
             ctx.oracle_fail('values-changed', desc, f'{name} ({info.dtype}) differs after the round trip')
     # time instants
-    tv = ds2[tname].values
+    tv = np.atleast_1d(ds2[tname].values)      # (a snapshot's time variable has no dimension)
     if tv.dtype.kind == 'M':
         got_inst = [x.astype('datetime64[us]').astype(object) for x in tv]
         got_t = [(g.year, g.month, g.day, g.hour, g.minute, g.second, g.microsecond) for g in got_inst]
@@ -1147,6 +1182,10 @@ def run_roundtrip(ctx, rt: dict, tmp: str) -> list:
             ctx.oracle_fail('fill-value-appeared', desc, f'{name} has a _FillValue attribute in the saved file, the source had none')
         if src_fill.get(name, False) and not has:
             ctx.oracle_fail('fill-value-lost', desc, f'{name} lost its _FillValue attribute')
+    if sel:      # round 6 (ranks): the level variables and scalars of the recipe
+        items.extend(judge_extras(ctx, rt, sel, full_sizes, ds2, out_fill, desc))
+    if sel or rt.get('history'):      # round 6: the fill attributes of the whole history of files, through the model
+        items.extend(savehist_items(ctx, rt, built, sel, full_sizes, hist_seen, out_fill, desc))
     ctx.nontrivial(('roundtrip', conv, rt['mode'], units_in, tname))
     return items
 
@@ -1180,6 +1219,276 @@ def roundtrip_stream(ctx, batch: Batch) -> None:
 
 
 # --------------------------------------------------------------------------
+# >>> round 6 (harness/gen/c17_extra6.py): variables of every rank, rank 0 included; histories of saves
+# Two classes of "a dataset saved through the convention's save method" that the round trips above did not contain:
+# (1) what is left of a dataset after one layer / one snapshot was selected - the coordinates of the selected
+#     dimensions stay as variables WITHOUT dimensions - and variables that never had one; every clause of the property
+#     is judged on them through run_roundtrip (rt['selection']), plus the values and fill attributes of the level
+#     variables and scalars themselves (judge_extras); the fill decision of every dtype at rank 0 and 2 is also put
+#     through to_netcdf_with_fixes directly (fillrank_stream);
+# (2) the same plain save, judged after a history of earlier saves of the process that were given keyword arguments of
+#     their own (rt['history']): what one save was asked to do must not reach the next.
+# Randomness: a stream of its own (rng6), so that the streams above see the numbers they always saw.
+
+def judge_extras(ctx, rt: dict, sel: dict, full_sizes: dict, ds2, out_fill: dict, desc: dict) -> list:
+    """values and fill attributes of the level variables / scalars of the recipe in the reopened file, against the
+    recipe; returns the model lines (the fill decision of the model has no rank: it is the same at every rank)"""
+    items = []
+    for name, dims, want, had_fill, kind, fill in X6.extras_truth(sel, full_sizes):
+        shape = 'without dimensions' if not dims else f'along {dims}'
+        if name not in out_fill or name not in ds2.variables:
+            ctx.oracle_fail('variable-lost', desc, f'{name} ({shape}) missing after the round trip')
+            continue
+        if out_fill[name] and not had_fill:
+            ctx.oracle_fail('fill-value-appeared', desc, f'{name} ({kind}, {shape}) has a _FillValue attribute in the saved file, the source had none')
+        if had_fill and not out_fill[name]:
+            ctx.oracle_fail('fill-value-lost', desc, f'{name} ({kind}, {shape}) lost its _FillValue attribute')
+        v2 = ds2[name]
+        if tuple(v2.dims) != tuple(dims):
+            ctx.oracle_fail('values-changed', desc, f'{name}: dims {dims} -> {v2.dims}')
+            continue
+        got = np.asarray(v2.values)
+        if kind == 'timedelta' and got.dtype.kind != 'm':
+            ctx.count('ranks:timedelta-not-decoded-by-xarray(values not compared)')
+        elif got.shape != want.shape or not bool(np.all(X6.as_number(got) == X6.as_number(want))):
+            ctx.oracle_fail('values-changed', desc, f'{name} ({kind}, {shape}) differs after the round trip: {want.tolist()!r} -> {got.tolist()!r}')
+        ctx.count(f"ranks:extra:{kind}:rank{len(dims)}")
+        if kind in ('float', 'int'):
+            if rt['mode'] == 'file':
+                enc, attr = ('value' if had_fill else 'absent'), 0
+            else:
+                enc, attr = ('value' if fill == 'enc' else 'absent'), int(fill == 'attr')
+            line = f'fill {kind} {kind} {enc} {attr}'
+            items.append((line, '1' if out_fill[name] else '0', {'op': line, 'variable': name, 'rank': len(dims), 'compare': 'file', **desc}))
+    return items
+
+
+def savehist_items(ctx, rt: dict, built, sel, full_sizes: dict, hist_seen: list, out_fill: dict, desc: dict) -> list:
+    """one `savehist` line: the earlier calls of the history (their `encoding=` and the tagged variables of their
+    datasets) and the judged plain save (tagged variables, level variables, scalars - each with its rank), all from
+    the recipes; against the `_FillValue` attributes found in the files. An earlier call that failed for a reason the
+    model does not describe is left out of the line."""
+    mode = rt['mode']
+    judged = X6.tagged_descs(built.vars, sel)
+    if sel:
+        judged += [(name, len(dims), kind, fill) for name, dims, _w, _h, kind, fill in X6.extras_truth(sel, full_sizes)
+                   if kind in ('float', 'int')]
+    if any(name not in out_fill for name, *_ in judged):
+        return []       # (a lost variable was reported by the oracle)
+    calls, want = [], []
+    for call, seen in zip(rt.get('history') or [], hist_seen):
+        vars_ = judged if call.get('same') else seen['vars']
+        vmode = mode if call.get('same') else 'memory'
+        if vars_ is None:
+            return []
+        kinds = {name: kind for name, _r, kind, _f in vars_}
+        if seen['outcome'] == 'ok' and all(name in seen['fills'] for name, *_ in vars_):
+            want.append(','.join(f"{name}={int(seen['fills'][name])}" for name, *_ in vars_) or '-')
+        elif call['cls'] == 'bad' and seen['outcome'] != 'ok':
+            want.append('ERR')
+        else:
+            ctx.count('history:earlier-call-not-compared:' + str(seen['outcome']))
+            continue
+        calls.append(f"{X6.enc_token(call, kinds)} " + (','.join(X6.var_token(*v, vmode) for v in vars_) or '-'))
+    calls.append('- ' + (','.join(X6.var_token(*v, mode) for v in judged) or '-'))
+    want.append(','.join(f'{name}={int(out_fill[name])}' for name, *_ in judged) or '-')
+    line = 'savehist ' + ' ; '.join(calls)
+    return [(line, ' ; '.join(want), {'op': line, **desc})]
+
+
+def _rng6(ctx, what: str):
+    import random
+    return random.Random(f'C17:{ctx.seed}:{int(ctx.searching)}:c17-extra6:{what}')
+
+
+class _Sub:
+    """the part of ctx that roundtrip_recipe uses, on a stream of its own"""
+    def __init__(self, rng):
+        self.rng = rng
+
+
+def _run_rts(ctx, batch: Batch, rts: list, prefix: str) -> None:
+    tmp = tempfile.mkdtemp(prefix=prefix)
+    items = []
+    try:
+        for rt in rts:
+            try:
+                # (guarded: whatever a changed implementation raises or leaves in the file is a verdict, never a crash)
+                ctx.guarded(lambda: items.extend(run_roundtrip(ctx, rt, tmp)), {'roundtrip': rt})
+            finally:
+                for f in os.listdir(tmp):
+                    try:
+                        os.unlink(os.path.join(tmp, f))
+                    except OSError:
+                        pass
+    finally:
+        shutil.rmtree(tmp, ignore_errors=True)
+    for line, impl, desc in items:
+        batch.add(line, impl, desc, pick=(lambda o: o.split(' ')[-1]) if desc.get('compare') == 'file' else None)
+
+
+def _plain_case(rt: dict, conv: str) -> None:
+    """the plainest time variable: +10:00, in memory (as the first round trips of roundtrip_stream)"""
+    rt['case'].update({'off': 600, 'Y': 1990, 'M': 1, 'D': 1, 'h': 0, 'mi': 0, 's': 0, 'period': 'days',
+                       'calendar': 'proleptic_gregorian'})
+    rt['case']['sp'].update({'tz': 'colon'})
+    rt['tname'] = {'shoc_standard': 't'}.get(conv, 'time')
+    rt['mode'] = 'memory'
+    rt.pop('enc_dtype', None)
+    rt.pop('fine', None)
+
+
+def ranks_stream(ctx, batch: Batch) -> None:
+    rng = _rng6(ctx, 'ranks')
+    sub = _Sub(rng)
+    rts = []
+    for k in range(ctx.budget(15, 100)):
+        conv = G.CONVS[k % len(G.CONVS)]
+        rt = roundtrip_recipe(sub, conv)
+        first = k < len(G.CONVS)
+        if first:
+            # smallest case first: the surface layer (index 0 of `k`, an f8 index coordinate) of a dataset in memory
+            _plain_case(rt, conv)
+        rt['selection'] = X6.random_selection(rng, rt['recipe'].get('sizes_extra', {}), rt['mode'], first=first)
+        ctx.count('ranks:select:' + '+'.join(sorted(rt['selection']['select'])) + ':' + rt['selection']['when'])
+        rts.append(rt)
+    _run_rts(ctx, batch, rts, 'c17rk')
+
+
+def history_stream(ctx, batch: Batch) -> None:
+    rng = _rng6(ctx, 'history')
+    sub = _Sub(rng)
+
+    def make_recipe(conv):
+        conv = conv or rng.choice(G.CONVS)
+        r = G.random_recipe(rng, conv, 'quick')
+        r = G.attach_vars(rng, r, n_vars=3, dtypes=('f8', 'f8', 'f4', 'i4'), with_nan=False)
+        if conv == 'shoc_simple':
+            for vr in r['vars']:
+                vr['attrs'] = {'standard_name': 'tag_' + vr['name']}
+        return r
+    rts = []
+    for k in range(ctx.budget(10, 60)):
+        conv = G.CONVS[k % len(G.CONVS)]
+        rt = roundtrip_recipe(sub, conv)
+        first = k < 2
+        if first:
+            # smallest history first: ONE earlier save, of another dataset of the same convention, that packs a variable
+            _plain_case(rt, conv)
+        rt['history'] = X6.random_history(rng, rt['recipe'], make_recipe, first=first)
+        for call in rt['history']:
+            ctx.count(f"history:{call['cls']}:{'same-dataset' if call['same'] else call['via']}")
+        ctx.count(f"history:length-{len(rt['history'])}")
+        rts.append(rt)
+    _run_rts(ctx, batch, rts, 'c17hi')
+
+
+def fillrank_stream(ctx, batch: Batch) -> None:
+    """the fill decision of every writable dtype on a variable without dimensions and on one with two, written through
+    the real to_netcdf_with_fixes; `_FillValue` presence read back with netCDF4 (file_fill_stream does rank 1)"""
+    import netCDF4
+    import xarray as xr
+    from emsarray.utils import to_netcdf_with_fixes
+    tmp = tempfile.mkdtemp(prefix='c17fr')
+    path = os.path.join(tmp, 'fr.nc')
+    items = []
+    try:
+        for key, (dtype, kind, disk) in WRITABLE.items():
+            d = np.dtype(dtype)
+            for rank in (0, 2):
+                for enc in ('absent', 'none', 'value'):
+                    for attr in (False, True):
+                        if (enc == 'value' and attr) or (kind in ('datetime', 'timedelta', 'str', 'bool') and (attr or enc == 'value')):
+                            continue
+                        shape = (2, 3)[:rank]
+                        n = int(np.prod(shape)) if shape else 1
+                        if d.kind == 'M':
+                            data = (np.datetime64('2000-01-01', 'ns') + np.arange(n).astype('m8[D]')).astype(d)
+                        elif d.kind == 'm':
+                            data = (np.arange(n) + 1).astype('m8[D]').astype(d)
+                        elif d.kind == 'U':
+                            data = np.array(['a', 'b', 'c', 'd', 'e', 'f'][:n], dtype=d)
+                        else:
+                            data = (np.arange(n) % 2).astype(d)
+                        da = xr.DataArray(data.reshape(shape), dims=['y', 'x'][:rank])
+                        if enc == 'none':
+                            da.encoding['_FillValue'] = None
+                        elif enc == 'value':
+                            da.encoding['_FillValue'] = d.type(9)
+                        if attr:
+                            da.attrs['_FillValue'] = d.type(9)
+                        line = f'fill {kind} {disk} {enc} {int(attr)}'
+                        desc = {'op': line, 'dtype': dtype, 'rank': rank, 'compare': 'file'}
+
+                        def one(da=da, line=line, desc=desc, enc=enc, attr=attr, dtype=dtype, rank=rank):
+                            try:
+                                to_netcdf_with_fixes(xr.Dataset({'v': da}), path)
+                            except (TypeError, ValueError):
+                                ctx.count('fill-rank:unwritable')
+                                return
+                            with netCDF4.Dataset(path) as nc:
+                                has = '_FillValue' in nc.variables['v'].ncattrs()
+                            ctx.count(f'fill-rank:rank{rank}:written')
+                            ctx.evaluated()
+                            src_had = attr or enc == 'value'
+                            if has and not src_had:
+                                ctx.oracle_fail('fill-value-appeared', desc, f'{dtype} variable with {rank} dimensions (_FillValue slot {enc}) '
+                                                                             'got a _FillValue attribute the source lacked')
+                            if src_had and not has:
+                                ctx.oracle_fail('fill-value-lost', desc, f'{dtype} variable with {rank} dimensions lost its _FillValue')
+                            items.append((line, '1' if has else '0', desc))
+                            ctx.nontrivial(('fill-rank', dtype, rank, enc, attr))
+                        ctx.guarded(one, desc)
+    finally:
+        shutil.rmtree(tmp, ignore_errors=True)
+    for line, impl, desc in items:
+        batch.add(line, impl, desc, pick=lambda o: o.split(' ')[-1])
+
+
+def round6_streams(ctx, batch: Batch) -> None:
+    fillrank_stream(ctx, batch)
+    ranks_stream(ctx, batch)
+    history_stream(ctx, batch)
+# <<< round 6
+
+
+# --------------------------------------------------------------------------
+# ---- BEGIN cross-check of the source translator (harness/trans_timeunits.py) -------------------------------------
+# The terms of Gen/TimeUnitsSrc.lean (format_time_units_for_ems, disable_default_fill_value, time_coordinate,
+# fix_time_units_for_ems as translated from the source text) are evaluated by the driver on inputs of the streams
+# above and held against what the real functions returned there; the meaning the interpreter gives to Python's
+# integer format specs and strftime directives is held against Python itself.
+
+def src_crosscheck(ctx, batch: Batch) -> None:
+    rng = ctx.rng
+    items = list(batch.items)
+    fmt = [it for it in items if it[0].startswith('fmt ') and it[1] is not None]
+    chosen = fmt[:60] + (rng.sample(fmt[60:], min(len(fmt) - 60, ctx.budget(140, 1400))) if len(fmt) > 60 else [])
+    for line, impl, desc, _pick, _same in chosen:
+        batch.add('src' + line, impl, dict(desc, op='src' + line, note='generated program (Gen.tuFormatProg) vs the real function'))
+    for line, impl, desc, _pick, _same in items:
+        if line.startswith('fill ') and desc.get('compare') == 'slot':
+            w = line.split(' ')
+            sline = f'srcfill {w[1]} {w[3]} {w[4]}'
+            batch.add(sline, impl, dict(desc, op=sline, note='generated decision (Gen.tuFillProg) vs the real function'))
+        elif line.startswith('timecoord '):
+            batch.add('src' + line, impl, dict(desc, op='src' + line, note='generated search (Gen.tuTimeCoord*) vs the real property'))
+        elif line.startswith('fixattrs ') and not line.endswith(' ; '):
+            batch.add('src' + line, impl, dict(desc, op='src' + line, note='generated file rewrite (Gen.tuFixSteps) vs the real function'))
+    for sg, z, w in [('', 1, 2), ('', 1, 4), ('', 0, 2), ('', 0, 0), ('', 1, 3), ('+', 1, 3), ('+', 0, 0), (' ', 0, 4), (' ', 1, 4)]:
+        spec = f"{sg}{'0' if z else ''}{w if w else ''}d"
+        for n in [-1439, -210, -10, -4, -1, 0, 1, 5, 9, 10, 59, 60, 99, 100, 123, 990, 999, 1000, 1990, 9999, 10000, 123456]:
+            sline = 'srcspec ' + {'': 'm', '+': 'p', ' ': 's'}[sg] + f' {z} {w} {n}'
+            batch.add(sline, esc(format(n, spec)), {'op': sline, 'spec': spec})
+    for y, mo, d, h, mi, s in [(1, 1, 1, 0, 0, 0), (7, 7, 7, 7, 7, 7), (99, 12, 31, 23, 59, 59), (990, 1, 2, 3, 4, 5),
+                               (1000, 10, 10, 10, 10, 10), (1990, 1, 1, 0, 0, 0), (9999, 12, 31, 23, 59, 59)]:
+        for dv in 'YmdHMS':
+            sline = f'srcstrf {dv} {y} {mo} {d} {h} {mi} {s}'
+            batch.add(sline, esc(dt.datetime(y, mo, d, h, mi, s).strftime('%' + dv)), {'op': sline})
+# ---- END cross-check of the source translator -----------------------------------------------------------------------
+
+
+# --------------------------------------------------------------------------
 
 def run(ctx) -> None:
     if ctx.driver is not None:
@@ -1193,6 +1502,8 @@ def run(ctx) -> None:
     fixattrs_stream(ctx, batch)
     timecoord_stream(ctx, batch)
     roundtrip_stream(ctx, batch)
+    src_crosscheck(ctx, batch)      # cross-check of the source translator (block above)
+    round6_streams(ctx, batch)      # round 6: ranks and histories (block above; after everything else, on its own random stream)
     batch.flush(ctx)
 
 
@@ -1202,6 +1513,8 @@ def replay(ctx, data) -> int:
 
 def impl_of_line(line: str) -> str | None:
     op, _, rest = line.partition(' ')
+    if op == 'srcfmt':
+        op = 'fmt'
     if op in ('fmt', 'fmtpure', 'instant'):
         cal, _, u = rest.partition(' ')
         cal, u = unesc(cal), unesc(u)
